@@ -264,3 +264,8 @@ Proof.
   rewrite firstn_all2 by (rewrite bits_length; lia).
   rewrite val_of_bits_bits. f_equal; [f_equal; f_equal; lia | f_equal; lia].
 Qed.
+
+Lemma bits_of_bytes_length l : length (bits_of_bytes l) = (8 * length l)%nat.
+Proof. unfold bits_of_bytes. induction l as [|b t IH]; [reflexivity|]. cbn [map concat length]. rewrite app_length, bits_length, IH. lia. Qed.
+Lemma bits_of_bytes_app a b : bits_of_bytes (a ++ b) = bits_of_bytes a ++ bits_of_bytes b.
+Proof. unfold bits_of_bytes. now rewrite map_app, concat_app. Qed.
